@@ -2114,7 +2114,8 @@ def laplacian_regularizer(weights, lattice_sizes, l1=0.0, l2=0.0):
     Laplacian regularization loss.
   """
   if not l1 and not l2:
-    return 0.0
+    # A tensor of the weights' dtype, so that it can be summed with other losses.
+    return tf.zeros([], dtype=weights.dtype)
 
   rank = len(lattice_sizes)
   # If regularization amount is given as single float assume same amount for
@@ -2194,7 +2195,8 @@ def torsion_regularizer(weights, lattice_sizes, l1=0.0, l2=0.0):
   """
   rank = len(lattice_sizes)
   if rank == 1 or (not l1 and not l2):
-    return 0.0
+    # A tensor of the weights' dtype, so that it can be summed with other losses.
+    return tf.zeros([], dtype=weights.dtype)
 
   # If regularization amount is given as single float assume same amount for
   # every dimension.
